@@ -130,8 +130,35 @@ def coq_make(targets, timeout=1500):
 GREP_GATE = re.compile(r"\b(Admitted|admit|Axiom|Axioms|Parameter|Parameters|Conjecture|Conjectures|bypass_check|Admit Obligations)\b|Unset Guard|type-in-type|impredicative-set|Unset Universe Checking|Unset Positivity")
 
 
-def grep_gate():
-    """No Admitted/Axiom/... anywhere in the development. Returns list of offending lines."""
+def dep_closure(targets):
+    """The .v files the given .vo targets depend on (transitively), from coq_makefile's .Makefile.d."""
+    deps = {}
+    try:
+        txt = open(os.path.join(COQ, ".Makefile.d")).read().replace("\\\n", " ")
+    except FileNotFoundError:
+        return None
+    for line in txt.split("\n"):
+        if ":" not in line:
+            continue
+        lhs, rhs = line.split(":", 1)
+        outs = [x for x in lhs.split() if x.endswith(".vo")]
+        ins = [x for x in rhs.split() if x.endswith(".vo")]
+        for o in outs:
+            deps.setdefault(o, set()).update(ins)
+    seen = set()
+    todo = list(targets)
+    while todo:
+        t = todo.pop()
+        if t in seen:
+            continue
+        seen.add(t)
+        todo += list(deps.get(t, ()))
+    return {t[:-1] for t in seen}          # X.vo -> X.v
+
+
+def grep_gate(only=None):
+    """No Admitted/Axiom/... in the development (restricted to the files in `only` when given).
+    Returns list of offending lines."""
     bad = []
     for top in ("theories", "Properties"):
         for dp, dn, fn in os.walk(os.path.join(COQ, top)):
@@ -139,6 +166,8 @@ def grep_gate():
                 if not f.endswith(".v"):
                     continue
                 p = os.path.join(dp, f)
+                if only is not None and os.path.relpath(p, COQ) not in only:
+                    continue
                 txt = open(p).read()
                 # strip comments (non-nested is enough for our files; nested handled by loop)
                 prev = None
@@ -446,7 +475,9 @@ class Ctx:
             where = "; ".join("%s:%s %s" % (a, b, c.strip()[:200]) for a, b, c in m[:3]) or out[-800:]
             self.proof_broken = where
             return False
-        bad = grep_gate()
+        closure = dep_closure(targets)
+        self.coverage["files_in_proof_closure"] = sorted(closure) if closure else "unknown (whole development gated)"
+        bad = grep_gate(closure)
         if bad:
             self.coverage["discharged"] = 0
             self.proof_broken = "grep gate: " + "; ".join(bad[:5])
